@@ -39,7 +39,7 @@ const c18EntrySig = "entry-kind/"
 // c18AssertDirNamedGo: a directory (or a symlink to one) named x.go is ignored by the
 // go tool, so the package is valid and the tool must neither crash nor emit tests for
 // it. While false the outcome is only recorded (entry_kind_noted_not_asserted/…).
-const c18AssertDirNamedGo = false
+const c18AssertDirNamedGo = true
 
 var c18EntryKinds = []string{
 	"regular-file", "read-only-file",
